@@ -11,7 +11,7 @@ tvars == <<vars, k, i, pred, reported>>
 TInit == Init /\ k \in 1..Len(Traces) /\ i = 1 /\ pred = <<>> /\ reported = FALSE
 
 Act(e) == CASE e.ev = "create"     -> Create(e.c, e.s)
-            [] e.ev = "createfail" -> CreateFail
+            [] e.ev = "createfail" -> CreateFail("cif")
             [] e.ev = "drop"       -> Drop(e.c)
             [] OTHER -> FALSE
 
